@@ -132,18 +132,23 @@ CLAIMED = {
    technique="Coq proof (non-interference of handles by induction over arbitrary schedules) + exhaustive interleaving correspondence + thread stress + compile-time Send/Sync assertion",
    design="8 (C20)"),
  "C03": dict(
-   text="Machine-checked Coq theorems over the reader model: lookup by name returns the LAST entry carrying the decoded "
-        "name, an absent name and an out-of-range index are not-found, an undecodable method fails that entry only.  "
-        "The layout theorem (open (render a) = expected a) is not yet proved; faithfulness to foreign layouts is carried "
-        "by the correspondence: 2.4k observations on archives from an independent builder written from APPNOTE (random "
-        "layouts: data descriptors of all four shapes, ZIP64 values forced in every field subset before/after unknown "
-        "extras, local/central disagreement, gaps and permuted local order, made-by DOS/Unix/other, arbitrary attribute "
-        "and DOS-time bits, comments, 0..64 KiB prefix, trailing garbage, duplicate names, end-record window edges, "
-        "unsupported methods), CPython zipfile and Info-ZIP zip; every accessor and every entry's bytes are compared "
-        "with the producer's manifest (oracle) and with the model.",
-   note="Trusted: Coq kernel, extraction+driver, harness, genzip.py/zipfile/Info-ZIP as producers. PARTIAL: the reader theorem over rendered archives is pending; until then the per-archive agreement is differential testing.",
-   technique="Coq proof (lookup/error lemmas) + differential correspondence against independent producers",
-   design="8 (C03)"),
+   text="Machine-checked Coq theorems over the reader model: (1) data in front of the archive: for ANY junk bytes, an archive "
+        "(entries ++ directory ++ plain end record) is opened with offset() = |junk| and every header offset shifted "
+        "accordingly (directory and end-record round trip through open with a non-zero archive offset); (2) for a stored, "
+        "unencrypted entry the reader takes nothing from the local header but its signature and the two length fields: "
+        "whatever version, flags (incl. the data-descriptor bit), time, CRC and sizes it carries and whatever follows the "
+        "payload, the entry reader denotes the payload named by the CENTRAL record (offset, size) checked against the "
+        "central CRC -- how entries of streaming producers are read; (3) every central record in the writer's field layout "
+        "with any values (ZIP64 block or not, user extra records behind it) is decoded exactly (C01's record theorem); "
+        "(4) lookup by name returns the LAST entry carrying the decoded name, an absent name and an out-of-range index are "
+        "not-found, an undecodable method fails that entry only.  Other layouts (ZIP64 extra behind unknown extras, "
+        "permuted local order, gaps, made-by variants, attribute and DOS-time bits, duplicate names, end-record window "
+        "edges, ZIP64 end records of other producers) are carried by the correspondence: 2.4k observations on archives from "
+        "an independent builder written from APPNOTE, CPython zipfile and Info-ZIP zip; every accessor and every entry's "
+        "bytes are compared with the producer's manifest (oracle) and with the model.",
+   note="Trusted: Coq kernel, extraction+driver, harness, genzip.py/zipfile/Info-ZIP as producers. PARTIAL: a theorem over an abstract 'every layout APPNOTE allows' renderer does not exist; the theorems above cover prefixes, arbitrary local header contents and the writer's central layout; compressed entries need decoders outside the reader model.",
+   technique="Coq proof (prefix shift through open, local-header independence of the entry reader, central record codec, lookup lemmas) + differential correspondence against independent producers",
+   design="8 (C03), 13"),
  "C10": dict(
    text="Machine-checked Coq theorems over the streaming-reader model: AGREEMENT on what the writer writes: for any number "
         "of stored entries with any names / options / contents, the bytes finish() returns are walked by the streaming "
